@@ -16,6 +16,7 @@ import (
 	"fmt"
 	"os"
 	"path/filepath"
+	"runtime"
 	"time"
 
 	"verif.local/harness/simkit"
@@ -44,6 +45,7 @@ type violationRec struct {
 	Seed   uint64 `json:"worker_seed"`
 	Start  uint64 `json:"worker_start"`
 	Stride uint64 `json:"worker_stride"`
+	Procs  int    `json:"worker_gomaxprocs"` // environment knob the worker ran with
 }
 
 type summaryRec struct {
@@ -208,6 +210,7 @@ func batch(args []string) {
 			sum.Violations++
 			rec := minimise(prop, tape.Record(), r, i, *tier, *noShrink)
 			rec.Seed, rec.Start, rec.Stride = *seed, *start, *stride
+			rec.Procs = runtime.GOMAXPROCS(0)
 			if err := enc.Encode(rec); err != nil {
 				fmt.Fprintln(os.Stderr, "worker: cannot encode violation record:", err)
 				os.Exit(2)
